@@ -127,12 +127,21 @@ func (p *psRun) publish(variant int, batch []int) {
 }
 
 func waitUntil(cond func() bool, max time.Duration) bool {
-	dl := time.Now().Add(max)
+	// the budget is counted in slices of at most 100 ms: a stall of the process or a jump
+	// of the clock (a paused virtual machine) uses up one slice, not the whole budget
+	var elapsed time.Duration
+	last := time.Now()
 	for !cond() {
-		if time.Now().After(dl) {
-			return false
-		}
 		time.Sleep(50 * time.Microsecond)
+		now := time.Now()
+		d := now.Sub(last)
+		last = now
+		if d > 100*time.Millisecond {
+			d = 100 * time.Millisecond
+		}
+		if elapsed += d; elapsed > max {
+			return cond()
+		}
 	}
 	return true
 }
@@ -623,9 +632,7 @@ func c10stable(c *core.Ctx) {
 				c.Violate("Unsub:error", fmt.Sprintf("Unsub of subscriber %d (call %d of %d, each channel once) returned %v", si, i+1, nsub, err), extra)
 				return
 			}
-			select {
-			case <-subs[si].done:
-			case <-time.After(30 * time.Second):
+			if !core.PatientWait(subs[si].done, 30*time.Second) {
 				c.Violate("Unsub:channel-not-closed", fmt.Sprintf("the channel of subscriber %d was not closed by its Unsub (receiver still waiting after 30 s)", si), extra)
 				return
 			}
@@ -649,9 +656,7 @@ func c10stable(c *core.Ctx) {
 		}
 		releaseAll()
 		for _, s := range subs {
-			select {
-			case <-s.done:
-			case <-time.After(30 * time.Second):
+			if !core.PatientWait(s.done, 30*time.Second) {
 				c.Violate("UnsubAll:channel-not-closed", "a subscriber's channel was not closed by UnsubAll (receiver still waiting after 30 s)", extra)
 				return
 			}
@@ -878,9 +883,7 @@ func c10churn(c *core.Ctx, kind string) {
 						flag("Unsub:error", fmt.Sprintf("Unsub of a subscribed channel returned %v", err))
 					}
 				}
-				select {
-				case <-s.done:
-				case <-time.After(20 * time.Second):
+				if !core.PatientWait(s.done, 20*time.Second) {
 					flag("Unsub:channel-not-closed", "the channel given to Unsub was not closed (its receiver is still waiting after 20 s)")
 					return
 				}
@@ -1019,9 +1022,7 @@ func c10churn(c *core.Ctx, kind string) {
 	}
 	run.ps.UnsubAll()
 	for _, s := range subs {
-		select {
-		case <-s.done:
-		case <-time.After(20 * time.Second):
+		if !core.PatientWait(s.done, 20*time.Second) {
 			c.Violate("UnsubAll:channel-not-closed", "a subscriber's channel was not closed by UnsubAll", extra)
 			return
 		}
@@ -1214,9 +1215,7 @@ func c10withonly(c *core.Ctx, concurrentUnsub bool) {
 	}
 	ps.UnsubAll()
 	for _, s := range subs {
-		select {
-		case <-s.done:
-		case <-time.After(20 * time.Second):
+		if !core.PatientWait(s.done, 20*time.Second) {
 			c.Violate("WithOnly:channel-not-closed", "channel not closed by UnsubAll", extra)
 			return
 		}
